@@ -40,12 +40,23 @@ class Inputs:
         self.symbols = symbols or {}      # name -> z3 const (for model extraction)
 
 
-class St(dict):
-    """namespace of named inputs"""
-    __getattr__ = dict.__getitem__
+class St(object):
+    """namespace of named inputs (plain attribute storage: names such as `items`/`keys` are fine)"""
 
-    def __setattr__(self, k, v):
-        self[k] = v
+    def __init__(self, **kw):
+        self.__dict__.update(kw)
+
+    def __getitem__(self, k):
+        return self.__dict__[k]
+
+    def __setitem__(self, k, v):
+        self.__dict__[k] = v
+
+    def get(self, k, default=None):
+        return self.__dict__.get(k, default)
+
+    def __contains__(self, k):
+        return k in self.__dict__
 
 
 class FnContract:
